@@ -134,6 +134,12 @@ def structural_edits(prog, rng):
     i = rng.randrange(len(ops))
     q._operations[i]["modes"] = [m + 1 for m in q._operations[i]["modes"]]
     out.append(("a different mode list at operation %d" % i, q))
+    multi = [j for j, o in enumerate(ops) if len(o["modes"]) >= 2]
+    if multi:
+        q = copy.deepcopy(prog)
+        j = rng.choice(multi)
+        q._operations[j]["modes"] = list(reversed(q._operations[j]["modes"]))
+        out.append(("the mode list of operation %d permuted" % j, q))
     # per-mode order: swap two adjacent operations that share a mode and differ in label
     for i in range(len(ops) - 1):
         a, b = ops[i], ops[i + 1]
@@ -209,7 +215,7 @@ def run(ctx):
                 "exact-friendly dyadic values, (generic) each parameter in one form with generic doubles; the "
                 "instance is reordered by a random topological order of its dependency graph; oracle: "
                 "match_template succeeds, its values re-instantiate to the same arguments (1e-9) and equal the "
-                "values used, and five single structural edits (gate, mode list, per-mode order, version, target) "
+                "values used, and six single structural edits (gate, mode list, permuted mode list of a multi-mode gate, per-mode order, version, target) "
                 "raise TemplateError; model matchTemplate vs implementation; non-trivial = at least 3 operations "
                 "and 2 parameter occurrences; distinct by (template, values, seed)")
     n = ctx.n(300, 5000)
